@@ -302,11 +302,17 @@ def left_deep(ctx, run, rule, fn_prefixes, floor=None):
             if bb not in inloop or s['k'] != 'assign' or s['place'].get('proj'):
                 continue
             rv = s['rv']
+            L = s['place']['local']
+            # `x = move tmp` where tmp is the freshly built node
+            if rv['k'] == 'use' and rv['op']['k'] == 'move' and not rv['op']['place'].get('proj'):
+                from mir import single_def
+                sd = single_def(b, rv['op']['place']['local'])
+                if sd is not None and sd[0] == 'stmt' and sd[3]['k'] == 'agg':
+                    rv = sd[3]
             if rv['k'] != 'agg' or rv.get('agg') != 'adt':
                 continue
-            L = s['place']['local']
             lty = b.local_ty(L)
-            if lty.get('path') != rv['adt']:
+            if lty.get('path') != rv['adt'] or b.name_of(L) is None:
                 continue
             t = ex.rvalue(rv)
             hit = False
